@@ -17,8 +17,40 @@ from .report import AnalysisError
 TOP = "TOP"
 
 SAME_ATTRS = {"T", "array", "diagonal", "transpose", "real", "flat"}
-SAME_FUNCS = {"np.diag", "np.tril", "np.triu", "_make_array_triangular", "np.asarray", "np.array", "np.concatenate", "np.sum", "np.trace", "np.outer", "np.dot", "np.einsum", "np.transpose", "np.atleast_2d", "np.identity", "np.eye", "np.zeros_like", "np.ones_like", "tuple", "list", "sum", "np.negative"}
+SAME_FUNCS = {"np.tril", "np.triu", "_make_array_triangular", "np.asarray", "np.array", "np.concatenate", "np.sum", "np.trace", "np.outer", "np.dot", "np.einsum", "np.transpose", "np.atleast_2d", "np.identity", "np.eye", "np.zeros_like", "np.ones_like", "tuple", "list", "sum", "np.negative"}
 PRODUCT_FUNCS = {"np.outer", "np.dot", "np.matmul", "np.multiply", "np.kron"}
+
+
+Z = "Z"  # the zero matrix entry: identity for sums, absorbing for products
+
+
+class DO(tuple):
+    """Positional type of a square array: (type on the diagonal, type off the diagonal); either
+    component may be Z (entries are zero there).  Plain types t stand for DO(t, t)."""
+
+    def __new__(cls, d, o):
+        return super().__new__(cls, (d, o))
+
+    @property
+    def d(self):
+        return self[0]
+
+    @property
+    def o(self):
+        return self[1]
+
+
+def _lift2(fn):
+    """Lift a binary lattice operation on plain types component-wise to DO values."""
+
+    def wrapped(self, a, b):
+        if isinstance(a, DO) or isinstance(b, DO):
+            a2 = a if isinstance(a, DO) else DO(a, a)
+            b2 = b if isinstance(b, DO) else DO(b, b)
+            return DO(fn(self, a2.d, b2.d), fn(self, a2.o, b2.o))
+        return fn(self, a, b)
+
+    return wrapped
 
 
 class Lattice:
@@ -28,18 +60,37 @@ class Lattice:
         self.mode = mode
         self.zero = 0 if mode == "parity" else Fraction(0)
 
+    @_lift2
     def add(self, a, b):
         if a == TOP or b == TOP:
             return TOP
+        if a == Z or b == Z:
+            return Z
         return (a + b) % 2 if self.mode == "parity" else a + b
 
     def neg(self, a):
-        if a == TOP:
-            return TOP
+        if isinstance(a, DO):
+            return DO(self.neg(a.d), self.neg(a.o))
+        if a == TOP or a == Z:
+            return TOP  # 1 / 0
         return a if self.mode == "parity" else -a
+
+    def collapse(self, a):
+        """A positional type seen as one array (e.g. as an operand of a matrix product)."""
+        if not isinstance(a, DO):
+            return a
+        if a.d == Z:
+            return a.o
+        if a.o == Z:
+            return a.d
+        return a.d if a.d == a.o else TOP
 
     def scale(self, a, k):
         """type of x**k"""
+        if isinstance(a, DO):
+            return DO(self.scale(a.d, k), self.scale(a.o, k))
+        if a == Z:
+            return Z if Fraction(k) > 0 else TOP
         if a == TOP:
             return TOP
         k = Fraction(k)
@@ -49,7 +100,12 @@ class Lattice:
             return (a * int(k)) % 2
         return a * k
 
+    @_lift2
     def join_sum(self, a, b):
+        if a == Z:
+            return b
+        if b == Z:
+            return a
         if a == TOP or b == TOP:
             return TOP
         return a if a == b else TOP
@@ -74,7 +130,7 @@ class TypeEval:
             res = self._stmt(f, st, env)
             if res is not None:
                 result = res if result is None else self.L.join_sum(result, res)
-        return result
+        return self.L.collapse(result)
 
     def _stmt(self, f, st, env):
         if isinstance(st, ast.Return):
@@ -112,6 +168,12 @@ class TypeEval:
                     if r is not None:
                         out = r if out is None else self.L.join_sum(out, r)
             return out
+        if isinstance(st, ast.Expr) and isinstance(st.value, ast.Call) and call_name(st.value) == "np.fill_diagonal" and len(st.value.args) == 2 and isinstance(st.value.args[0], ast.Name):
+            nm = st.value.args[0].id
+            cur = env.get(nm, self.L.zero)
+            cur = cur if isinstance(cur, DO) else DO(cur, cur)
+            env[nm] = DO(self.L.collapse(self.ev(f, st.value.args[1], env)), cur.o)
+            return None
         if isinstance(st, (ast.Raise, ast.Expr, ast.Pass)):
             return None
         raise AnalysisError(f"{f.qualname}: statement outside the typing grammar: {norm(st)[:60]}")
@@ -159,8 +221,20 @@ class TypeEval:
         if isinstance(e, ast.UnaryOp):
             return self.ev(f, e.operand, env)
         if isinstance(e, ast.BinOp):
+            if (
+                isinstance(e.op, (ast.Sub, ast.Add))
+                and isinstance(e.left, ast.Subscript)
+                and isinstance(e.right, ast.Subscript)
+                and norm(e.left.value) == norm(e.right.value)
+                and {norm(e.left)[len(norm(e.left.value)):], norm(e.right)[len(norm(e.right.value)):]} == {"[:, None]", "[None, :]"}
+            ):
+                # x[:, None] - x[None, :]: zero on the diagonal (for Sub), type of x elsewhere
+                t = L.collapse(self.ev(f, e.left.value, env))
+                return DO(Z if isinstance(e.op, ast.Sub) else t, t)
             a, b = self.ev(f, e.left, env), self.ev(f, e.right, env)
-            if isinstance(e.op, (ast.Mult, ast.MatMult)):
+            if isinstance(e.op, ast.MatMult):
+                return L.add(L.collapse(a), L.collapse(b))
+            if isinstance(e.op, ast.Mult):
                 return L.add(a, b)
             if isinstance(e.op, ast.Div):
                 return L.add(a, L.neg(b))
@@ -198,7 +272,21 @@ class TypeEval:
                 return out
             if cn in ("np.sqrt", "sla.sqrtm"):
                 return L.scale(args[0], Fraction(1, 2)) if cn == "np.sqrt" else (L.zero if args[0] == L.zero else TOP)
-            if cn in ("np.log", "np.exp", "np.tanh", "np.sinh", "nla.cholesky", "nla.eigh", "sla.lu_factor"):
+            if cn in ("np.tanh", "np.sinh", "np.sin", "np.arctan", "np.arcsinh", "np.tan") and len(args) == 1:
+                # odd functions keep the parity of their argument; no homogeneity unless degree 0
+                if L.mode == "parity":
+                    return args[0]
+                return L.zero if args[0] == L.zero else TOP
+            if cn in ("np.cosh", "np.cos") and len(args) == 1:
+                if L.mode == "parity":
+                    return TOP if args[0] == TOP else L.zero
+                return L.zero if args[0] == L.zero else TOP
+            if cn == "np.diag" and len(args) == 1:
+                a = args[0]
+                return a.d if isinstance(a, DO) else DO(a, Z)
+            if cn.split(".")[-1] in ("EigendecomposedSymmetricMatrix", "EigendecomposedPositiveDefiniteMatrix") and len(args) == 2:
+                return L.add(L.add(L.collapse(args[0]), L.collapse(args[0])), L.collapse(args[1]))
+            if cn in ("np.log", "np.exp", "nla.cholesky", "nla.eigh", "sla.lu_factor"):
                 return L.zero if all(a == L.zero for a in args) else TOP
             if cn in SAME_FUNCS:
                 out = None
